@@ -274,12 +274,28 @@ def c06_2(ctx: Ctx) -> RuleResult:
         res.add(f, c, "variables passed to the evaluator are transforms.variables.from_optimizer(x) whenever that transform is set", ok,
                 "" if ok else f"variables argument is `{show(v, 100)}`: the evaluator can receive optimizer-domain values", construct=f"{f.name}: from_optimizer")
         # the guard: transforms is not None and transforms.variables
-        # outputs
+        # outputs: what the result containers receive
+        sinks = []
+        for cl in calls_in(f):
+            ft = X.at(f, cl.func)
+            if ft[0] == "global" and ft[1] in ctx.repo.classes and ctx.repo.classes[ft[1]].module.name == MOD:
+                sinks.append(X.at(f, cl))
         for fld, trn in (("objectives", "objectives"), ("constraints", "nonlinear_constraints")):
-            used = _downstream_uses(ctx, f, c, fld)
-            ok = any(a[0] == "call" and a[1][0] == "attr" and a[1][2] == "to_optimizer" and ends_with_attrs(a[1][1], trn) for u in used for a in _flat(u))
-            res.add(f, c, f"returned {fld} go through transforms.{trn}.to_optimizer before they are used", ok,
-                    "" if ok else f"{fld} are consumed in the user domain while the optimizer works in the transformed domain", construct=f"{f.name}: to_optimizer {fld}")
+            vals = []
+            for st in sinks:
+                for k, v in st[3]:
+                    if k in (fld, f"perturbed_{fld}"):
+                        vals.append(v)
+            ok = bool(vals)
+            why = "" if ok else f"no result container receives the {fld}"
+            for v in vals:
+                tos = [x for x in ctx.X.closure(v) if x[0] == "call" and x[1][0] == "attr" and x[1][2] == "to_optimizer"]
+                good = [x for x in tos if ends_with_attrs(x[1][1], trn) and x[2] and contains(x[2][0], lambda y: y[0] == "attr" and y[2] == fld and y[1] == t)]
+                if not good or len(good) != len(tos):
+                    ok = False
+                    why = (f"{fld} reach the result containers without transforms.{trn}.to_optimizer: they are consumed in the user domain while the optimizer works in the transformed domain"
+                           if not tos else f"{fld} are mapped by `{show(tos[0][1], 60)}` instead of transforms.{trn}.to_optimizer")
+            res.add(f, c, f"returned {fld} go through transforms.{trn}.to_optimizer before they are used", ok, why, construct=f"{f.name}: to_optimizer {fld}")
     res.floor = 9
     return res
 
